@@ -68,8 +68,9 @@ def exampleMachine : DFA Trans :=
 
 example : (machineWF exampleMachine [] 0).all = true := by decide
 
-example : MachineOK ({ dfa := exampleMachine, ctxs := [], entries := [], actions := (fun _ => Action.skip),
-    width := (fun _ => 1), input := none } : Config Unit Unit Unit) :=
-  machineOK_of_checker _ 0 (by decide)
+def exampleCfg : Config Unit Unit Unit :=
+  { dfa := exampleMachine, ctxs := [], entries := [], actions := fun _ => Action.skip, width := fun _ => 1, input := none }
+
+example : MachineOK exampleCfg := machineOK_of_checker exampleCfg 0 (by decide)
 
 end Lexgen
